@@ -82,3 +82,40 @@ Fixpoint read_zone_names (fuel : nat) (b : list N) : option (list (N * list N)) 
          end
   | _, _ => None
   end.
+
+(* ======================= control messages ========================================== *)
+(* --------------------------------------------------- 4.a.i zone control (0x20) *)
+Record szone_ctrl := mkSZC {
+  szc_zone : N;
+  szc_value : change zone_value;      (* "Zone setting value": "Other: Keep setting value" *)
+  szc_method : change method;         (* "Control type" *)
+  szc_power : change zone_power }.    (* "Other: Keep power state" *)
+
+Definition read_zone_ctrl (b1 b2 b3 : N) : szone_ctrl :=
+  mkSZC (bits b1 6 1)
+    (match bits b2 8 6 with
+     | 2 => Decrease | 3 => Increase
+     | 4 => SetTo (Percent b3) | 5 => SetTo (SetPointDeg (Z.of_N b3 + 100)) | _ => Keep end)
+    (match bits b2 5 4 with 0 => Keep | 1 => Toggle | 2 => SetTo ByPercentage | _ => SetTo ByTemperature end)
+    (match bits b2 3 1 with 1 => Toggle | 2 => SetTo ZOff | 3 => SetTo ZOn | 5 => SetTo ZTurbo | _ => Keep end).
+
+(* --------------------------------------------------- 4.a.iii AC control (0x22) *)
+Inductive fan5 := F5 (f : afan) | F5IntelligentAuto.
+Record sac5_ctrl := mkSAC5 {
+  s5c_index : N;
+  s5c_power : change onoff;           (* "Other: Keep power setting" *)
+  s5c_mode : change amode;
+  s5c_fan : change fan5;
+  s5c_setpoint : change Z }.          (* 0x40: change, 0x00: keep, other: invalid; tenths *)
+
+Definition read_ac5_ctrl (b1 b2 b3 b4 : N) : sac5_ctrl :=
+  mkSAC5 (bits b1 4 1)
+    (match bits b1 8 5 with
+     | 1 => Toggle | 2 => SetTo POff | 3 => SetTo POn | 4 => SetTo PAway | 5 => SetTo PSleep | _ => Keep end)
+    (match bits b2 8 5 with
+     | 0 => SetTo AMS_Auto | 1 => SetTo AMS_Heat | 2 => SetTo AMS_Dry | 3 => SetTo AMS_Fan | 4 => SetTo AMS_Cool | _ => Keep end)
+    (match bits b2 4 1 with
+     | 0 => SetTo (F5 AFS_Auto) | 1 => SetTo (F5 AFS_Quiet) | 2 => SetTo (F5 AFS_Low) | 3 => SetTo (F5 AFS_Medium)
+     | 4 => SetTo (F5 AFS_High) | 5 => SetTo (F5 AFS_Powerful) | 6 => SetTo (F5 AFS_Turbo)
+     | 8 => SetTo F5IntelligentAuto | _ => Keep end)
+    (if b3 =? 0x40 then SetTo (Z.of_N b4 + 100)%Z else if b3 =? 0 then Keep else NotDefined).
